@@ -121,7 +121,8 @@ BT == [
   structs  |-> [flags |-> {"grid_plate"}, comps |-> <<"clad", "duct">>],
   liner    |-> [flags |-> {"shield"},  comps |-> <<"liner", "shield">>],
   lineronly|-> [flags |-> {"liner"},   comps |-> <<"liner", "duct">>],
-  blob     |-> [flags |-> {"structure"}, comps |-> <<"blob", "clad">>]
+  blob     |-> [flags |-> {"structure"}, comps |-> <<"blob", "clad">>],
+  wires    |-> [flags |-> {"shield"},  comps |-> <<"wire", "clad">>]       \* wire (0,1) touches an annular pin (1,2) above it: not linked
 ]
 PrefFlags == <<"fuel", "control", "poison", "shield", "slug">>        \* TARGET_FLAGS_IN_PREFERRED_ORDER
 
